@@ -28,7 +28,7 @@ from harness import core, fsbox, sched, tlc
 from checks import loader_common as lc
 
 SCENARIOS = ['main_edit_dir_override', 'dir_edit', 'defaults_permissive', 'deprecated', 'alias_eval', 'dir_edit_linked', 'merge_mode_dir_edit',
-             'empty_main_dir_edit']
+             'empty_main_dir_edit', 'defaults_override_removed']
 MERGE_MODE = {'merge_mode_dir_edit'}
 NAMES = ['n', 'm', 'o', 'u', 'default']
 ROLES = ['a', 'b', 'd1r', 'd2r', 'dflt', 'old', 'nobody']
@@ -77,6 +77,8 @@ def scenario_files(sc):
         return {'main': {'o': R('a')}}, {'main': {'o': R('b')}}
     if sc == 'dir_edit_linked':
         return {'main': {'u': R('a')}, 'd1/a': {'n': ALIAS_M, 'm': R('a')}}, {'d1/a': {'m': R('b'), 'n': ALIAS_O, 'o': R('a')}}
+    if sc == 'defaults_override_removed':
+        return {'main': {'default': ANY, 'n': R('a')}}, {'main': {'default': ANY}}
     if sc == 'empty_main_dir_edit':
         return {'main': {}, 'd1/a': {'n': R('d1r')}}, {'d1/a': {'n': R('d1r', 'd2r')}}
     if sc == 'merge_mode_dir_edit':
@@ -86,7 +88,7 @@ def scenario_files(sc):
 
 def defaults_for(sc):
     from oslo_policy import policy
-    if sc in ('defaults_permissive', 'empty_main_dir_edit'):
+    if sc in ('defaults_permissive', 'empty_main_dir_edit', 'defaults_override_removed'):
         return [policy.RuleDefault('n', 'role:dflt')]
     if sc == 'deprecated':
         return [policy.RuleDefault('n', 'role:dflt', deprecated_rule=policy.DeprecatedRule('o', 'role:old', deprecated_reason='r', deprecated_since='s'))]
@@ -354,7 +356,8 @@ def run(ctx):
                 'alias_eval': [('n', 'a'), ('n', 'b'), ('n', 'd2r')],
                 'dir_edit_linked': [('n', 'a'), ('n', 'b'), ('m', 'a')],
                 'merge_mode_dir_edit': [('n', 'a'), ('n', 'd1r'), ('n', 'd2r')],
-                'empty_main_dir_edit': [('n', 'd1r'), ('n', 'd2r'), ('n', 'dflt')]}[sc]
+                'empty_main_dir_edit': [('n', 'd1r'), ('n', 'd2r'), ('n', 'dflt')],
+                'defaults_override_removed': [('n', 'nobody'), ('n', 'a'), ('n', 'dflt'), ('u', 'nobody')]}[sc]
         # park points: in the quick tier those line events of the reloading call at which the shared
         # store (contents, file-rule record, default rule) has just changed - every distinct window is
         # visited once - plus a regular sample; in the thorough tier every line event
